@@ -50,11 +50,15 @@
                                         (hosts_after) and directory all name the same single
                                         surviving replica holder with x = 1
      reachable_keys_distinct            the distinct-key hypotheses hold in every reachable state
+     directory_table_is_dir_step        the directory table used here is the projection of C20's
+                                        Directory model (M_Discovery.dir_recv on publish / unpublish
+                                        computation messages), for any injective naming of its ids
    Still outside: that MGM2 (randomised local search, 20 cycles) REACHES a zero-hard-cost
    outcome; transport; threads; replication (C25). *)
 From PyDcop Require Import Base M_Repair P_Repair M_RepairOrch2 P_RepairOrch2 P_RepairOrch3.
 From PyDcop Require Import M_RepairOrch P_RepairOrch P_RepairOrch4.
 From Coq Require Import Permutation.
+From PyDcop Require M_Discovery P_RepairOrch5.
 
 Theorem repair_status_ok_iff : forall ro st a sel ags b,
   In (ROStatus b) (snd (rstep ro st (RvRepairDone a sel ags))) ->
@@ -198,6 +202,21 @@ Proof. exact repair_valid_outcome_exactly_one_l. Qed.
 Theorem reachable_keys_distinct : forall ro tr,
   NoDup (map fst (r_agts (rrun ro rinit tr))) /\ NoDup (map fst (r_comps (rrun ro rinit tr))).
 Proof. exact rrun_keys_ok_l. Qed.
+
+Theorem directory_table_is_dir_step : forall (nm : Z -> string),
+  (forall a b, nm a = nm b -> a = b) ->
+  forall st (m : M_Discovery.msg) sender,
+    match m with
+    | M_Discovery.MPubComp c ag addr =>
+        P_RepairOrch5.ren nm (P_RepairOrch5.gcomps_of (M_Discovery.dir_recv st sender m))
+        = dir_step (P_RepairOrch5.ren nm (M_Discovery.g_comps (M_Discovery.n_dir st))) (DReg (nm c) (nm ag))
+    | M_Discovery.MUnpubComp c ag =>
+        P_RepairOrch5.ren nm (P_RepairOrch5.gcomps_of (M_Discovery.dir_recv st sender m))
+        = dir_step (P_RepairOrch5.ren nm (M_Discovery.g_comps (M_Discovery.n_dir st)))
+                   (DUnreg (nm c) (option_map nm ag))
+    | _ => True
+    end.
+Proof. exact P_RepairOrch5.directory_table_is_dir_step_l. Qed.
 
 (* non-vacuity of the composition: a0 (hosting v1, v2) leaves; replicas v1 -> a1, a2 and
    v2 -> a2; outcome x: v1 on a1, v2 on a2.  Hard cost 0, selections, orchestrator from the
